@@ -48,7 +48,8 @@ AstsOf(h) ==
     [] h.k = "padheader" -> {PadHeaderAst(key, v, p) : key \in {B("compiler"), E}, v \in {<<>>, <<B("R8")>>, <<B("a: b")>>}, p \in Pads}
     [] h.k = "sourcefile" -> {SourceFileAst(v) : v \in Files}
     [] h.k = "class" -> {ClassAst(o, b) : o \in Classes, b \in Classes}
-    [] h.k = "field" -> {FieldAst(h.ty, n, b) : n \in Names, b \in Obfs}
+    \* (a field's original name may be qualified - fields moved by class merging - and is reported as written)
+    [] h.k = "field" -> {FieldAst(h.ty, n, b) : n \in Names \cup {B("com.Other.count")}, b \in Obfs}
     [] h.k = "method" ->
          {MethodAst(h.ty, h.oclass, h.original, a, r, orr, b) :
             a \in Args, r \in Ranges, orr \in ORanges, b \in Obfs}
